@@ -15,7 +15,7 @@ FLAGS_plain := -O2
 FLAGS_asan  := -O1 -fsanitize=address -fno-omit-frame-pointer
 FLAGS_tsan  := -O1 -fsanitize=thread
 
-SIM_SRCS := sim/omp_shim.cpp sim/san_opts.cpp
+SIM_SRCS := sim/omp_shim.cpp sim/san_opts.cpp sim/mem_shim.cpp
 A_SRCS := engines/buildsim_main.cpp $(sort $(wildcard engines/a_cfg_*.cpp))
 B_SRCS := $(wildcard engines/histsim_main.cpp) $(sort $(wildcard engines/b_cfg_*.cpp))
 C_SRCS := $(wildcard engines/filesim_main.cpp) $(sort $(wildcard engines/c_cfg_*.cpp))
